@@ -505,11 +505,35 @@ func (g *Gen) StrArrays() *X {
 	}
 }
 
+// Assoc: v op a op b with a non-literal v and two integer literals, evaluated strictly from the left: for a float v at
+// the edge of its precision (2^53, 2^24) or an integer v near its kind's limits (v + a) + b is not v + (a + b).
+func (g *Gen) Assoc() *X {
+	vs := []*X{Var("F", TF64), Var("G", TF64), Var("F32", Num(KF32)), Var("I64", Num(KInt64)), Var("U8", Num(KUint8)), Var("I8", Num(KInt8)), Var("I", TInt)}
+	f26 := g.Excl["in-array-dyn-arith"] // arithmetic with a dynamically typed operand is typed int: open finding F26
+	if g.Dyn && g.Spec != nil && g.Spec.AnyTy().IsNum() && !f26 {
+		vs = append(vs, Var("Any", g.Spec.AnyTy()), Var("Any", g.Spec.AnyTy()))
+	}
+	v := vs[g.pick(len(vs), "asv")]
+	ty := v.Ty
+	if ty.K < KInt {
+		ty = TInt // (promotion with an int literal)
+	}
+	ops := [][2]string{{"+", "+"}, {"-", "-"}, {"+", "-"}, {"-", "+"}, {"*", "*"}}[g.pick(5, "asop")]
+	a, b := LitInt(1+g.pick(3, "asa")), LitInt(1+g.pick(3, "asb"))
+	x := Bin(ops[1], Bin(ops[0], v, a, ty), b, ty)
+	if g.coin("ascmp") && !(f26 && g.AllDynamic) {
+		return Bin("==", x, Bin(ops[0], v.Clone(), LitInt(int(a.I)), ty), TBool)
+	}
+	return x
+}
+
 // ConstRoot: a whole program for the rewrite-biased classes.
 func (g *Gen) ConstRoot() *X {
 	g.ConstBias = 40 + g.pick(50, "bias")
 	d := 2 + g.pick(3, "cdepth")
-	switch g.pick(14, "croot") {
+	switch g.pick(15, "croot") {
+	case 14:
+		return g.Assoc()
 	case 13:
 		return g.StrArrays()
 	case 12:
